@@ -12,7 +12,7 @@ from tensorly.parafac2_tensor import Parafac2Tensor
 from . import gen
 from .x_registry import register, Call, CPLX, REAL, enc, mask_spec, small_shape, container
 from .x_reg_tenalg import cp_arg
-from .x_reg_solvers import CONSTRAINTS, constraint_arg
+from .x_reg_solvers import CONSTRAINTS, constraint_spec, constraint_kwargs
 
 seeds = gen.seeds
 SVDS = st.sampled_from(["truncated_svd", "truncated_svd", "symeig_svd", "randomized_svd"])
@@ -158,24 +158,16 @@ def s_constrained(draw):
     c["svd"] = draw(SVDS)
     c["n_iter_max"] = min(c["n_iter_max"], 2) if not c["bad"] else 2
     c["n_iter_max_inner"] = draw(st.integers(1, 3))
-    name = draw(st.sampled_from(sorted(CONSTRAINTS)))
-    c["constraint"] = name
-    c["param"] = draw(CONSTRAINTS[name])
-    c["form"] = draw(st.sampled_from(["scalar", "list", "dict", "partial_list"]))
-    c["cmodes"] = sorted(draw(st.lists(st.integers(0, n - 1), unique=True, min_size=1, max_size=n)))
+    c.update(draw(constraint_spec(n)))
     return c
 
 
 def b_constrained(e, ctx):
     n = len(e["X"]["s"])
-    if e["form"] == "partial_list":
-        carg = [e["param"] if m in e["cmodes"] else None for m in range(n)]
-    else:
-        carg = constraint_arg(e["form"], e["param"], n, e["cmodes"])
     kw = dict(tensor=ctx.A(e["X"]), rank=e["rank"], n_iter_max=e["n_iter_max"], n_iter_max_inner=e["n_iter_max_inner"],
               init=_cp_init(e, ctx), svd=e["svd"], tol_outer=e["tol"] or 1e-8, random_state=e["rs"], return_errors=e["return_errors"],
               cvg_criterion="bad" if e["bad"] else "abs_rec_error", fixed_modes=_fm(e["fixed_modes"]))
-    kw[e["constraint"]] = carg
+    kw.update(constraint_kwargs(e, n))
     return Call(D.constrained_parafac, kw, expect_exc=e["bad"])
 
 
